@@ -12,8 +12,8 @@ META = dict(
                 "Non-empty result: reported tallies = oracle tallies, winner strictly larger, every order ending in another candidate is "
                 "contradicted by a returned assertion, each assertion re-tallies to its reported numbers through its own predicates "
                 "(C14's third clause). Empty result: valid only if no set of true assertions excludes every alternative winner.",
-    bounds={"quick": {"candidates": 3, "ballots": "2, 3", "reported winner": "every candidate", "difficulty": "cp_estimate, bp_estimate", "hint": "none, one order"},
-            "thorough": {"candidates": 3, "ballots": "2, 3, 4", "hint": "none and every order"}},
+    bounds={"quick": {"candidates": 3, "ballots": "2, 3 (+ 2 ballot types with multiplicities 1..2)", "reported winner": "every candidate", "difficulty": "cp_estimate, bp_estimate", "hint": "none, one order"},
+            "thorough": {"candidates": 3, "ballots": "2, 3, 4; 4 candidates x 2 ballots; 2-3 ballot types with symbolic multiplicities 1..3", "hint": "none and every order"}},
     outside=["more ballots/candidates than the bound", "agap > 0", "logging"],
     assumptions=["ballots are duplicate-free partial rankings; all ballots contain the contest"],
     trusted=["symx core, merge", "oracle formulas"],
